@@ -1,5 +1,5 @@
 (* C04 — merged fields resolve once; mutation root fields run one at a time in order. *)
-From AG Require Import ExecCheck ExecWitness.
+From AG Require Import ExecCheck ExecWitness Sched SchedProofs.
 Open Scope N_scope.
 
 Theorem C04_once_refuted :
@@ -14,5 +14,20 @@ Theorem C04_per_occurrence_refuted :
   trace_of (spec_exec m_schema w7 d7 None [] 50) = Some [(0, 20); (2, 23); (2, 21); (3, 25)].
 Proof. exact w_per_occurrence. Qed.
 
+(* second half: mutation root fields run one at a time, in document order, under EVERY
+   completion schedule of the resolvers (scheduler model Sched.v, tied to the code by the gated
+   runs of check C05): the event log splits into consecutive per-root-field segments *)
+Theorem C04_serial : forall kd done cs s f n l,
+  run_log s (FSeq kd done cs) = (f, n, l) -> seg_ok (map all_events cs) (evs_of l).
+Proof. exact serial_log. Qed.
+Theorem C04_serial_order : forall kd done cs s f n l,
+  run_log s (FSeq kd done cs) = (f, n, l) -> disjoint_sets (map all_events cs) ->
+  forall i j x y, (i < j)%nat ->
+    In x (all_events (nth i cs (FDone (IVal VNull)))) -> In y (all_events (nth j cs (FDone (IVal VNull)))) ->
+    ~ before y x (evs_of l).
+Proof. exact serial_order. Qed.
+
+Print Assumptions C04_serial.
+Print Assumptions C04_serial_order.
 Print Assumptions C04_once_refuted.
 Print Assumptions C04_per_occurrence_refuted.
